@@ -148,8 +148,10 @@ theorem apiSpawn_w (s : Sys) (t n) : WgLe s (apiSpawn s t n) := by
   · wpeel (setPc_w _ _ _); wpeel (emit_w _ _); exact spawnProc_w _ _
   all_goals (wpeel (setPc_w _ _ _); exact spawnProc_w _ _)
 
+theorem addDone_w (s : Sys) (i : IId) : WgLe s (addDone s i) := by
+  unfold addDone; done_w
 theorem doSkip_w (s : Sys) (t i) : WgLe s (doSkip s t i) := by
-  unfold doSkip; exact (onProcessEnd_w _ _ _).then (setPc_w _ _ _)
+  unfold doSkip; exact (addDone_w _ _).then ((onProcessEnd_w _ _ _).then (setPc_w _ _ _))
 
 theorem afterDeps_w (s : Sys) (t) : WgLe s (afterDeps s t) := setPc_w _ _ _
 
